@@ -13,7 +13,7 @@ def main():
                 "next_rule in any nesting over one variable, and for each the per-element expectation of the lexical reference "
                 "(Expected) and of the as-implemented node-graph + selector model (ImplFire) on the complete world (one element "
                 "per truth vector of the branch conditions); each program is built with real nested with-blocks and evaluated in "
-                "two domain orders; per element the set of inferred conclusion types is compared. Non-trivial = a program with at "
+                "two domain orders, and once written in two steps (the branches in a first `with query:` block, the base conclusion in a second one); per element the set of inferred conclusion types is compared. Non-trivial = a program with at "
                 "least two branches; distinct by (program, domain order).")
     ctx.run_tlc("RuleTree", "RuleTree_mc_plain.cfg", expect="ok")          # on the unaffected shapes the implementation model meets the reference
     ctx.run_tlc("RuleTree", "RuleTree_sw_all.cfg", expect="violation")     # ... and not on all shapes (witnesses of the findings)
@@ -25,11 +25,15 @@ def main():
     for p in progs:
         for order in (0, 1):
             cases.append({"prog": p["prog"], "k": p["k"], "order": order, "cases": p["cases"], "agree": p["agree"]})
+    # the same rule written in two steps: a first `with query:` block with the branches, a second one with the base conclusion
+    for p in progs:
+        if p["prog"]:
+            cases.append({"prog": p["prog"], "k": p["k"], "order": 0, "base_last": True, "cases": p["cases"], "agree": p["agree"]})
     results = replay("ruletree", cases)
     ctx.replayed = len(cases)
     meets = 0
     for c, r in zip(cases, results):
-        key = [shape(c["prog"]), c["order"]]
+        key = [shape(c["prog"]), c["order"]] + (["two_steps"] if c.get("base_last") else [])
         nb = shape(c["prog"]).count("ref") + shape(c["prog"]).count("alt") + shape(c["prog"]).count("next")
         ctx.case(key, nb >= 2, sample={"program": shape(c["prog"]), "order": c["order"], "observed": r.get("res")})
         if r.get("error"):
@@ -51,7 +55,8 @@ def main():
         if not diff_ref:
             meets += 1
             continue
-        info = {"program": shape(c["prog"]), "prog": c["prog"], "order": c["order"], "differs_from_reference": diff_ref[:6]}
+        info = {"program": shape(c["prog"]), "prog": c["prog"], "order": c["order"], "written_in_two_steps": bool(c.get("base_last")),
+                "differs_from_reference": diff_ref[:6]}
         # fallback attribution (signature + mismatch kind): with a next_rule in the tree the Next selector's
         # left_evaluated / right_evaluated flags survive from the previous binding, so a binding may ADDITIONALLY show the
         # conclusion of a branch that did not fire for it (which bindings depends on the enumeration order; the per-element
